@@ -2,6 +2,9 @@ use ahash::RandomState;
 use bytes::Bytes;
 use crossbeam_channel::{bounded, Receiver, Sender};
 use crossbeam_utils::CachePadded;
+#[cfg(feoxdb_verif)]
+use crate::verif::locks::{Mutex, RwLock};
+#[cfg(not(feoxdb_verif))]
 use parking_lot::{Mutex, RwLock};
 use std::collections::VecDeque;
 use std::sync::atomic::{AtomicBool, AtomicU32, AtomicU64, AtomicUsize, Ordering};
